@@ -157,6 +157,13 @@ class MechAdapter(Adapter):
         out['copy_sim'] = c.simulate(v, TIMES)
         obj.enable_sensitivities(False)
         out['sim_after'] = obj.simulate(v, TIMES)
+        # a copy is independent of its original: re-fixing / releasing on the COPY leaves the original alone
+        fixed = [n for n in self._names if n not in list(obj.parameters())] if hasattr(obj, 'fix_parameters') else []
+        if fixed:
+            c2 = obj.copy()
+            c2.fix_parameters({fixed[0]: 123.0})
+            c2.fix_parameters({fixed[-1]: None})
+        out['sim_after_copy_changed'] = obj.simulate(v, TIMES)
         return out
 
 
